@@ -778,6 +778,10 @@ class _Walker:
         params = list(callee.params)
         mapping = {}
         if bound == 'cls' and params:
+            # class-level state reached through the callee's `cls` is the caller's class object (or, called on a class by name, global state)
+            own = isinstance(c.func, ast.Attribute) and isinstance(c.func.value, ast.Name) and self.f.kind == 'classmethod' \
+                and self.f.params and c.func.value.id == self.f.params[0]
+            mapping[params[0]] = recv if (recv and own) else frozenset([('g', 'class-state')])
             params = params[1:]
         elif bound == 'self' and params:
             mapping[params[0]] = recv if recv is not None else EMPTY
